@@ -1253,6 +1253,15 @@ func ruleKEY11(c *Ctx) []Ob {
 						fwd(x)
 					case *ssa.BinOp:
 						fwd(x)
+					case *ssa.Slice:
+						fwd(x)
+					case *ssa.Store:
+						// an item of a variadic call: stored into the argument array, which is sliced and passed on
+						if x.Val == v {
+							if ia, ok := x.Addr.(*ssa.IndexAddr); ok {
+								fwd(ia.X)
+							}
+						}
 					case *ssa.Call:
 						if g := staticCallee(x); g != nil && g.Pkg != nil && g.Pkg.Pkg.Path() == "github.com/google/orderedcode" {
 							reaches = true
